@@ -23,7 +23,7 @@ INPUTS.append(("roots",
                "interface Being { id: ID! }\ninterface Named implements Being { id: ID! name: String }\ntype Person implements Being & Named { id: ID! name: String boss: Person kind: Kind }\nenum Kind { A B }\ninput Loop { next: Loop, k: Kind = A }\nenum Sort { ASC DESC }\nenum Axis { X Y }\n",
                "query Me($s: Sort, $by: [Axis!]) { me(sort: $s, by: $by) { id name boss { boss { id } } kind } }\nmutation Ren($n: String!) { rename(n: $n) { id } }\nsubscription Ticks($n: Int) { ticks(n: $n) }\nsubscription People { people { id name } }", {}, {}, True))
 INPUTS.append(("scalars_mixins",
-               "scalar Date\nscalar Blob\nscalar Stamp\nscalar Money\ntype Query { when(d: Date, b: Blob): Ev range(stamps: [Stamp!], grid: [[Money]]): Int }\ntype Ev { at: Date! until: [Date] raw: Blob loc: Loc }\ntype Loc { lat: Float! lon: Float! }\ninput Win { from: Date!, to: Date }\ntype Mutation { book(w: Win!): Ev }",
+               "scalar Date\nscalar Blob\nscalar Stamp\nscalar Money\ntype Query { when(d: Date, b: Blob): Ev range(stamps: [Stamp!], grid: [[Money]]): Int }\ntype Ev { at: Date! until: [Date] raw: Blob loc: Loc near(d: Date, s: Stamp, m: [Money!]): Ev }\ntype Loc { lat: Float! lon: Float! }\ninput Win { from: Date!, to: Date }\ntype Mutation { book(w: Win!): Ev }",
                "query When($d: Date, $b: Blob) { when(d: $d, b: $b) { at until raw loc @mixin(from: \".mixins\", import: \"MixA\") { lat lon } ...EvF } }\n"
                "mutation Book($w: Win!) { book(w: $w) { at } }\nfragment EvF on Ev @mixin(from: \".mixins\", import: \"MixA\") { at }\n"
                "query Range($stamps: [Stamp!], $grid: [[Money]]) { range(stamps: $stamps, grid: $grid) }",
